@@ -267,6 +267,20 @@ class Dense:
 # helpers shared by the drivers
 # ----------------------------------------------------------------------------------------------
 
+def quiet_env():
+    """no warnings; the path optimiser (cotengra) must not start process pools: the harness workers are daemonic
+    processes (children are not allowed) and the cores are shared"""
+    import warnings
+
+    warnings.filterwarnings("ignore")
+    try:
+        import cotengra.parallel as cp
+
+        cp._IS_WORKER = True  # "worker subprocesses should not auto-create pools"
+    except Exception:  # noqa
+        pass
+
+
 def site_graph(tn):
     """adjacency between sites from the raw index lists (one tensor per site assumed)"""
     owner = {}
@@ -365,11 +379,9 @@ def _tnag_geometries(quick):
               "local_expectation_gloop_expand / compute_ / norm_gloop_expand with a generalized loop spanning all sites, "
               "local_expectation_sloop_expand on rings. tolerance 1e-9 (double) / 3e-4 (single) x operator norm x <psi|psi>")
 def tnag_routes(cx):
-    import warnings
-
     import quimb.tensor as qtn  # noqa: F401
 
-    warnings.filterwarnings("ignore")
+    quiet_env()
     rng = cx.rng
     geos = _tnag_geometries(cx.quick)
     dts = DTYPES
@@ -668,9 +680,7 @@ def _compressed_geometries(quick):
               "symmetrized auto/True/False, normalized or not, 4 dtypes, stored exponents; PEPS3D.local_expectation "
               "(inherited generic route). tolerance 1e-8 (double) / 3e-3 (single) relative to operator norm x <psi|psi>")
 def compressed_routes(cx):
-    import warnings
-
-    warnings.filterwarnings("ignore")
+    quiet_env()
     rng = cx.rng
     geos = _compressed_geometries(cx.quick)
     expos = ["none", "attr", "equalize"]
@@ -778,14 +788,12 @@ def _spin_ops(d):
               "partial_trace_to_dense_canonical, local_expectation_canonical, compute_local_expectation_canonical "
               "(inplace or not), compute_local_expectation_via_envs, compute_local_expectation(method=...), magnetization "
               "(X/Y/Z, spin-1/2 and spin-1, normalised state), correlation (normalised state), partial_trace_to_mpo "
-              "(list / unsorted list / slice keep, rescale_sites or not), partial_trace_compress + logneg_subsys "
-              "(double precision, eps=1e-11: spectrum of the compressed state == spectrum of the dense reduced state; "
+              "(list / unsorted list / slice keep of dimension <= 300, rescale_sites or not), partial_trace_compress + logneg_subsys "
+              "(double precision, blocks of total dimension <= 300, eps=1e-11: spectrum of the compressed state == spectrum of the dense reduced state; "
               "default lateral method 'isvd' only with uniform bonds because scipy 1.18 interpolative svd fails on "
               "rectangular LinearOperators, method 'svd' with mixed bonds)")
 def mps_routes(cx):
-    import warnings
-
-    warnings.filterwarnings("ignore")
+    quiet_env()
     rng = cx.rng
     Ls = [1, 2, 3, 4, 6] if cx.quick else [1, 2, 3, 4, 5, 6, 7, 8]
     expos = ["none", "attr", "equalize"]
@@ -970,8 +978,8 @@ def _mps_one_state(cx, rng, mps, L, cyclic, dtype, how, rep):
         keeps.append(("slice", slice(a, b)))
     for (kform, keep), resc in itertools.product(keeps, (True, False)):
         ks = list(range(L))[keep] if isinstance(keep, slice) else sorted(keep)
-        if not ks:
-            continue
+        if not ks or dn.dim(ks) > 300:
+            continue  # (dense comparison of the MPO: kept blocks of dimension <= 300)
         p = dict(base, keep=str(keep) if isinstance(keep, slice) else keep, keep_form=kform, rescale_sites=resc)
 
         def t_mpo(keep=keep, ks=ks, resc=resc):
@@ -1020,8 +1028,8 @@ def _mps_one_state(cx, rng, mps, L, cyclic, dtype, how, rep):
         mn[0].modify(data=mn[0].data / dn.norm2 ** 0.5)
         variants.append((True, mn, Dense(mn)))
     for (snorm, mps, dn), (sysa, sysb), method, renorm in itertools.product(variants, blocks, methods, (True, False)):
-        if (snorm, sysa, sysb, str(method), renorm) in seen or set(sysa) & set(sysb):
-            continue
+        if (snorm, sysa, sysb, str(method), renorm) in seen or set(sysa) & set(sysb) or dn.dim(sysa + sysb) > 300:
+            continue  # (the reference diagonalises the dense reduced state: blocks of total dimension <= 300)
         seen.add((snorm, sysa, sysb, str(method), renorm))
         pure = (len(sysa) + len(sysb) == L) and not cyclic
         p = dict(base, sysa=list(sysa), sysb=list(sysb), method=str(method), renorm=renorm, pure_bipartition=pure, state_normalized=snorm)
@@ -1087,11 +1095,9 @@ def _lex_pairs(rng, sites, count):
               "on/off, bra/ket layered or flat, autogroup on/off, normalized or not, return_all or summed, supplied or "
               "computed plaquette environments; terms on single sites and on site pairs (ascending, descending, distant)")
 def lattice_2d(cx):
-    import warnings
-
     import quimb.tensor as qtn
 
-    warnings.filterwarnings("ignore")
+    quiet_env()
     rng = cx.rng
     if cx.quick:
         geos = [(1, 3, 2, 2, False), (3, 1, 2, 2, False), (2, 2, 3, 2, False), (2, 3, 2, 3, False), (3, 3, 2, 2, False),
@@ -1268,9 +1274,7 @@ def lattice_2d(cx):
               "by boundary or compressed contraction, shared environment cache across terms, clusters with max_distance "
               "spanning the lattice (plain or with simple-update gauges), 1..3 kept sites in any order")
 def lattice_3d(cx):
-    import warnings
-
-    warnings.filterwarnings("ignore")
+    quiet_env()
     rng = cx.rng
     geos = [(2, 2, 2, 2, 2), (1, 2, 2, 2, 3), (2, 1, 2, 3, 2), (2, 2, 1, 2, 2), (1, 1, 3, 2, 2)]
     if not cx.quick:
@@ -1296,6 +1300,14 @@ def lattice_3d(cx):
             big = n > 8
             wheres = pick_wheres(rng, dn.sites, count=3 if (cx.quick or big) else 5)
             ops = {w: rand_op(rng, dn.dim(w)) for w in wheres}
+            def edge_cell(w):
+                """the bounding cell of w is a single plane at an end of a direction of length >= 3"""
+                for d, Ld in enumerate((Lx, Ly, Lz)):
+                    cs = {s[d] for s in w}
+                    if Ld >= 3 and len(cs) == 1 and (0 in cs or Ld - 1 in cs):
+                        return True
+                return False
+
             for w in wheres:
                 grid = list(itertools.product((True, False), (False, True), ("boundary", "compressed"), (True, False)))
                 if cx.quick or big:
@@ -1305,7 +1317,7 @@ def lattice_3d(cx):
                     forms = [("tuple", w)] + ([("bare-site", w[0])] if len(w) == 1 else [])
                     for wform, warg in forms:
                         p = dict(base, where=jw(w), where_form=wform, canonize=canonize, flatten=flatten, cell=ccm, normalized=nrm,
-                                 symmetrized=sym)
+                                 symmetrized=sym, edge_cell=edge_cell(w))
 
                         def t_pt(w=w, warg=warg, canonize=canonize, flatten=flatten, ccm=ccm, nrm=nrm, sym=sym):
                             kw = {}
@@ -1356,7 +1368,8 @@ def lattice_3d(cx):
                             return e
 
                 cx.check("PEPS3D.compute_local_expectation (untruncating) == dense values",
-                         dict(base, normalized=nrm, return_all=ra, shared_envs=shared, nterms=len(terms)), t_cle)
+                         dict(base, normalized=nrm, return_all=ra, shared_envs=shared, nterms=len(terms),
+                              edge_cell=any(edge_cell(w) for w in terms)), t_cle)
 
 
 # ----------------------------------------------------------------------------------------------
@@ -1398,11 +1411,9 @@ def make_graph_operator(rng, n, dtype, extra_edges=0, labels="int", maxbond=3, d
               "(int / str / tuple site labels), MPO L<=6 open and periodic, PEPO 2x2 / 2x3; site dims 2..3 mixed, 4 dtypes, "
               "stored exponents; sysa = single site (bare), tuples, all sites, generators; in-place and copy")
 def operator_routes(cx):
-    import warnings
-
     import quimb.tensor as qtn
 
-    warnings.filterwarnings("ignore")
+    quiet_env()
     rng = cx.rng
     kinds = [("graph", 1, 0, "int"), ("graph", 2, 0, "str"), ("graph", 4, 1, "tuple"), ("graph", 6, 2, "int"),
              ("mpo", 1, False), ("mpo", 2, False), ("mpo", 5, False), ("mpo", 3, True), ("mpo", 6, True),
